@@ -82,6 +82,22 @@ CHECKS = {
         'container in an output set) are a recorded known finding.',
         'walking the unfinalised value consumes iterators, so each case is '
         'evaluated twice from fresh data', 'DESIGN.md section 2, C10'),
+    'C16': (
+        'encoder round trip and decoder model over generated strings, '
+        'exhaustive BMP code points (thorough), numerals and words',
+        'Generated-input search: (1) every code point (ASCII/Latin-1 + seeded '
+        'stride in quick, whole BMP + astral sample in thorough) alone and '
+        'embedded, and Hypothesis strings biased to quotes/backslashes/'
+        'look-alikes, spelled by the harness\'s own quoting function in 3 '
+        'styles, must read back exactly (value and Constant.value); (2) '
+        'table-driven decoder model (independent of codecs) over sequences '
+        'of escapes, look-alikes and plain characters; malformed escapes '
+        'must be lexical errors; (3) integers up to 4000 digits and decimals '
+        'vs int()/float(); (4) identifier-shaped words incl. reserved, '
+        'operator and underscore-leading ones. The grammar-inherent gap of '
+        'verbatim strings is a recorded known finding.',
+        'CPython int()/float()/unicodedata are the ground truth for numbers '
+        'and \\N names', 'DESIGN.md section 2, C16'),
     'C15': (
         'exhaustive all-pairs enumeration of a boundary corpus under every '
         'scalar operator against a reference model, law checks through yaql, '
